@@ -27,7 +27,6 @@ import (
 	"github.com/google/gce-tcb-verifier/keys"
 	sops "github.com/google/gce-tcb-verifier/sign/ops"
 	styp "github.com/google/gce-tcb-verifier/sign/types"
-	"go.uber.org/multierr"
 )
 
 var (
@@ -97,16 +96,18 @@ func Key(ctx context.Context) (string, error) {
 	}
 	req := &keyRequest{ca: c.CA, manager: c.Manager}
 
-	// The steps of rotation store intermediate results in the request
-	// for the error handling to sequence cleanly.
-	if err := multierr.Combine(
-		req.createNewSigningKeyVersion(ctx),
-		req.getCurrentInfo(ctx),
-		req.signAndAdd(ctx),
-		req.updatePrimaryAndDestroy(ctx),
-		req.finalize(ctx),
-	); err != nil {
-		return "", err
+	// The steps of rotation store intermediate results in the request. They run strictly in
+	// sequence and rotation stops at the first error, so that a failed step can never be followed
+	// by a change of the primary key version or by the destruction of the old key.
+	for _, step := range []func(context.Context) error{
+		req.createNewSigningKeyVersion,
+		req.getCurrentInfo,
+		req.signAndAdd,
+		req.updatePrimaryAndDestroy,
+	} {
+		if err := step(ctx); err != nil {
+			return "", err
+		}
 	}
 
 	return req.kver, nil
@@ -165,6 +166,12 @@ func (r *keyRequest) updatePrimaryAndDestroy(ctx context.Context) error {
 		return fmt.Errorf("cannot update primary with signing key %q, mutation %v", r.kver, r.mut)
 	}
 	r.mut.SetPrimarySigningKeyVersion(r.kver)
+
+	// The old version may only be destroyed once the new key, its certificate and its role as
+	// primary are persisted: if anything before this point fails, the old key stays usable.
+	if err := r.finalize(ctx); err != nil {
+		return err
+	}
 
 	// Destroy the old version if it existed.
 	if r.currentVersion != "" {
